@@ -31,7 +31,13 @@ def run_rule(project, name, cache):
         fn(project, res)
         res.error = None
     except AnalysisError as e:
-        res.error = str(e)
+        if str(e).startswith('minieval:'):
+            # a decision helper is no longer inside the subset the table evaluator reads (it was rewritten with a construct the
+            # evaluator does not model): the obligations of this rule are not decided -- no alarm, no pass, no broken analysis
+            res.undecided('rule %s' % name, 'a pure decision helper can no longer be tabulated (%s): the remaining obligations of this rule were not decided' % e)
+            res.error = None
+        else:
+            res.error = str(e)
     except Exception as e:   # internal error of the checker: never a verdict
         res.error = 'internal error: %s: %s\n%s' % (type(e).__name__, e, traceback.format_exc(limit=6))
     res.wall = time.time() - t0
